@@ -253,6 +253,60 @@ impl_dynr!(BE, BitReader<BE, MemWordReader<u64, Vec<u64>, false>>);
 impl_dynr!(LE, BitReader<LE, MemWordReader<u64, Vec<u64>, false>>);
 
 
+
+// ---- more backends: byte-stream adapter over a shared Cursor, and a recording word sink -------
+
+/// `Cursor<Vec<u8>>` shared with the harness so the bytes written so far can be inspected
+#[derive(Clone)]
+pub struct SharedCursor(pub std::rc::Rc<std::cell::RefCell<std::io::Cursor<Vec<u8>>>>);
+impl std::io::Write for SharedCursor {
+    fn write(&mut self, buf: &[u8]) -> std::io::Result<usize> {
+        self.0.borrow_mut().write(buf)
+    }
+    fn flush(&mut self) -> std::io::Result<()> {
+        Ok(())
+    }
+}
+
+/// a word sink that only records what it is given
+pub struct RecW<W>(pub std::rc::Rc<std::cell::RefCell<Vec<W>>>);
+macro_rules! impl_recw {
+    ($($W:ty),*) => {$(
+        impl WordWrite for RecW<$W> {
+            type Error = std::convert::Infallible;
+            type Word = $W;
+            fn write_word(&mut self, word: $W) -> Result<(), Self::Error> {
+                self.0.borrow_mut().push(word);
+                Ok(())
+            }
+            fn flush(&mut self) -> Result<(), Self::Error> {
+                Ok(())
+            }
+        }
+    )*};
+}
+impl_recw!(u8, u16, u32, u64, u128);
+
+macro_rules! impl_dynw_more {
+    ($($W:ty),*) => {$(
+        impl_dynw!(BE, WordAdapter<$W, SharedCursor>);
+        impl_dynw!(LE, WordAdapter<$W, SharedCursor>);
+        impl_dynw!(BE, RecW<$W>);
+        impl_dynw!(LE, RecW<$W>);
+    )*};
+}
+impl_dynw_more!(u8, u16, u32, u64, u128);
+
+macro_rules! impl_dynr_adapter {
+    ($($W:ty),*) => {$(
+        impl_dynr!(BE, BufBitReader<BE, WordAdapter<$W, std::io::Cursor<Vec<u8>>>>);
+        impl_dynr!(LE, BufBitReader<LE, WordAdapter<$W, std::io::Cursor<Vec<u8>>>>);
+    )*};
+}
+impl_dynr_adapter!(u8, u16, u32, u64);
+impl_dynr!(BE, BitReader<BE, WordAdapter<u64, std::io::Cursor<Vec<u8>>>>);
+impl_dynr!(LE, BitReader<LE, WordAdapter<u64, std::io::Cursor<Vec<u8>>>>);
+
 // ---- counting / tracing wrappers (C14) -----------------------------------------------------
 
 macro_rules! impl_dynw_wrapped {
@@ -373,6 +427,8 @@ pub struct Cfg {
     pub cap: Option<usize>,
     pub data: Vec<u8>,
     pub wrap: u8, // 0 none, 1 count, 2 dbg
+    pub wb: u8,   // writer backend: 0 vec / slice (cap), 1 byte-stream adapter, 2 recording sink
+    pub rb: u8,   // reader backend: 0 memory, 1 byte-stream adapter over a Cursor
 }
 
 /// a writer plus the harness' handle on its storage
@@ -382,7 +438,18 @@ pub struct Wr {
 }
 
 macro_rules! mk_writer {
-    ($E:ty, $W:ty, $cap:expr, $wrap:expr) => {{
+    ($E:ty, $W:ty, $cap:expr, $wrap:expr, $wb:expr) => {{
+        if $wb == 1 {
+            let cur = SharedCursor(std::rc::Rc::new(std::cell::RefCell::new(std::io::Cursor::new(Vec::new()))));
+            let h = cur.clone();
+            let w = BufBitWriter::<$E, _>::new(WordAdapter::<$W, _>::new(cur));
+            Wr { w: Box::new(w), dump: Box::new(move || h.0.borrow().get_ref().clone()) }
+        } else if $wb == 2 {
+            let store = std::rc::Rc::new(std::cell::RefCell::new(Vec::<$W>::new()));
+            let h = store.clone();
+            let w = BufBitWriter::<$E, _>::new(RecW::<$W>(store));
+            Wr { w: Box::new(w), dump: Box::new(move || bytes_of_words(&h.borrow())) }
+        } else {
         match $cap {
             None => {
                 let sv = SharedVec::<$W>::new(Vec::new());
@@ -402,21 +469,22 @@ macro_rules! mk_writer {
                 Wr { w: Box::new(w), dump: Box::new(move || bytes_of_words(&h.snapshot())) }
             }
         }
+        }
     }};
 }
 
 pub fn make_writer(c: &Cfg) -> Option<Wr> {
     Some(match (c.le, c.ww) {
-        (false, 8) => mk_writer!(BE, u8, c.cap, c.wrap),
-        (false, 16) => mk_writer!(BE, u16, c.cap, c.wrap),
-        (false, 32) => mk_writer!(BE, u32, c.cap, c.wrap),
-        (false, 64) => mk_writer!(BE, u64, c.cap, c.wrap),
-        (false, 128) => mk_writer!(BE, u128, c.cap, c.wrap),
-        (true, 8) => mk_writer!(LE, u8, c.cap, c.wrap),
-        (true, 16) => mk_writer!(LE, u16, c.cap, c.wrap),
-        (true, 32) => mk_writer!(LE, u32, c.cap, c.wrap),
-        (true, 64) => mk_writer!(LE, u64, c.cap, c.wrap),
-        (true, 128) => mk_writer!(LE, u128, c.cap, c.wrap),
+        (false, 8) => mk_writer!(BE, u8, c.cap, c.wrap, c.wb),
+        (false, 16) => mk_writer!(BE, u16, c.cap, c.wrap, c.wb),
+        (false, 32) => mk_writer!(BE, u32, c.cap, c.wrap, c.wb),
+        (false, 64) => mk_writer!(BE, u64, c.cap, c.wrap, c.wb),
+        (false, 128) => mk_writer!(BE, u128, c.cap, c.wrap, c.wb),
+        (true, 8) => mk_writer!(LE, u8, c.cap, c.wrap, c.wb),
+        (true, 16) => mk_writer!(LE, u16, c.cap, c.wrap, c.wb),
+        (true, 32) => mk_writer!(LE, u32, c.cap, c.wrap, c.wb),
+        (true, 64) => mk_writer!(LE, u64, c.cap, c.wrap, c.wb),
+        (true, 128) => mk_writer!(LE, u128, c.cap, c.wrap, c.wb),
         _ => return None,
     })
 }
@@ -452,7 +520,34 @@ macro_rules! mk_bitreader {
     }};
 }
 
+macro_rules! mk_adapter_reader {
+    ($E:ty, $W:ty, $bytes:expr) => {
+        Box::new(BufBitReader::<$E, _>::new(WordAdapter::<$W, _>::new(std::io::Cursor::new($bytes.to_vec())))) as Box<dyn DynR>
+    };
+}
+
 pub fn make_reader(c: &Cfg, bytes: &[u8]) -> Option<Box<dyn DynR>> {
+    if c.rb == 1 && c.wrap == 0 {
+        // byte-stream adapter over a Cursor (always strict: read_exact fails at the end)
+        if c.bit {
+            return Some(if c.le {
+                Box::new(BitReader::<LE, _>::new(WordAdapter::<u64, _>::new(std::io::Cursor::new(bytes.to_vec())))) as Box<dyn DynR>
+            } else {
+                Box::new(BitReader::<BE, _>::new(WordAdapter::<u64, _>::new(std::io::Cursor::new(bytes.to_vec())))) as Box<dyn DynR>
+            });
+        }
+        return Some(match (c.le, c.rw) {
+            (false, 8) => mk_adapter_reader!(BE, u8, bytes),
+            (false, 16) => mk_adapter_reader!(BE, u16, bytes),
+            (false, 32) => mk_adapter_reader!(BE, u32, bytes),
+            (false, 64) => mk_adapter_reader!(BE, u64, bytes),
+            (true, 8) => mk_adapter_reader!(LE, u8, bytes),
+            (true, 16) => mk_adapter_reader!(LE, u16, bytes),
+            (true, 32) => mk_adapter_reader!(LE, u32, bytes),
+            (true, 64) => mk_adapter_reader!(LE, u64, bytes),
+            _ => return None,
+        });
+    }
     if c.bit {
         return Some(if c.le { mk_bitreader!(LE, c.strict, bytes, c.wrap) } else { mk_bitreader!(BE, c.strict, bytes, c.wrap) });
     }
@@ -470,7 +565,7 @@ pub fn make_reader(c: &Cfg, bytes: &[u8]) -> Option<Box<dyn DynR>> {
 }
 
 pub fn parse_cfg(toks: &[&str]) -> Cfg {
-    let mut c = Cfg { le: false, ww: 64, rw: 32, bit: false, strict: false, cap: None, data: vec![], wrap: 0 };
+    let mut c = Cfg { le: false, ww: 64, rw: 32, bit: false, strict: false, cap: None, data: vec![], wrap: 0, wb: 0, rb: 0 };
     for t in toks {
         if let Some((k, v)) = t.split_once('=') {
             match k {
@@ -482,6 +577,8 @@ pub fn parse_cfg(toks: &[&str]) -> Cfg {
                 "cap" => c.cap = v.parse().ok(),
                 "data" => c.data = unhex(v).unwrap_or_default(),
                 "wrap" => c.wrap = match v { "count" => 1, "dbg" => 2, _ => 0 },
+                "wb" => c.wb = match v { "adapter" => 1, "rec" => 2, _ => 0 },
+                "rb" => c.rb = match v { "adapter" => 1, _ => 0 },
                 _ => {}
             }
         }
@@ -529,6 +626,7 @@ pub fn run(cfg_toks: &[&str], body: &str) -> String {
         v
     };
     let res = catch_unwind(AssertUnwindSafe(|| {
+        // readers get whole words (a byte stream with a partial trailing word is the subject of the AD family)
         let data = pad(&cfg.data);
         let (w, r, r2) = match (make_writer(&cfg), make_reader(&cfg, &data), make_reader(&cfg, &data)) {
             (Some(w), Some(r), Some(r2)) => (w, r, r2),
@@ -682,7 +780,7 @@ fn step(cfg: &Cfg, st: &mut State, op: &[&str], outs: &mut Vec<String>, pad: &dy
             emit_ok!(st.r.d_skip_bits(n as usize))
         }
         ["ru"] => {
-            if !cfg.strict {
+            if !cfg.strict && cfg.rb == 0 {
                 let p = st.r.d_pos().unwrap_or(u64::MAX);
                 if !one_ahead(&st.rdata, cfg.le, p) {
                     outs.push("loop".into());
@@ -693,7 +791,7 @@ fn step(cfg: &Cfg, st: &mut State, op: &[&str], outs: &mut Vec<String>, pad: &dy
         }
         ["rc", code, flags, p] => {
             let p = num_or_bad!(p);
-            if !cfg.strict && !matches!(*code, "omega" | "minbin" | "vbbe" | "vble") {
+            if !cfg.strict && cfg.rb == 0 && !matches!(*code, "omega" | "minbin" | "vbbe" | "vble") {
                 let pos = st.r.d_pos().unwrap_or(u64::MAX);
                 if !one_ahead(&st.rdata, cfg.le, pos) {
                     outs.push("loop".into());
